@@ -2,6 +2,12 @@
 
 # engine -> (regex on the driver's branch tags that makes a case non-trivial, description)
 ENGINE_RULES = {
+    "aiger": (r"(items=([2-9]|[1-9][0-9])|gates=[1-9]|syms=[1-9]|cmt=1|fin=E:syn|fin=E:io)",
+              "ASCII and binary AIGER: circuits from the abstract types through the crate's writers (all counts incl. "
+              "0, latch reset forms, symbol kinds, UTF-8 names, comments, varint lengths 1-10), layout variants, "
+              "mutations, arbitrary bytes, invalid UTF-8, huge declared counts, single-token corruptions, faults at "
+              "random / every offset, line sources; streaming API, skip mode and whole-file parse(); 5 literal types; "
+              "every case under 5-6 read schedules; non-trivial = several items / gates / symbols / comment or an error"),
     "btor2": (r"(lines=[1-9]|fin=E:syn|fin=E:io|valid=1)",
               "BTOR2 documents: every operator / constant form / sort / line kind through the public constructors and "
               "write_into, layout variants, keyword lengths around the 8-byte SWAR boundary, mutations, arbitrary "
@@ -37,6 +43,8 @@ HOOK_COMMITS = []
 
 # (name, path, description)
 ENGINES = [
+    ("aiger", "harness/src/eng_aiger.rs + gen_aiger.rs + lean/Driver/EngAiger.lean",
+     "flussab-aiger ASCII/binary parsers and writers under many schedules vs. the Lean model vs. independent decoders"),
     ("btor2", "harness/src/eng_btor2.rs + gen_btor2.rs + lean/Driver/EngBtor2.lean",
      "flussab-btor2 parser/writer under many schedules vs. the View-level Lean model vs. independent tokenizer"),
     ("stream", "harness/src/eng_stream.rs + lean/Driver/EngStream.lean",
@@ -102,7 +110,7 @@ PROPS = {
         assumptions=["chunk >= 1", "position() not wrapped"]),
     "C09": dict(
         module="Flussab.Props.C09", modules=["Flussab.Props.C09", "Flussab.Props.C09Parsers"],
-        engines=[("reader", 4000, 150000, ""), ("cnf", 2500, 80000, "ls"), ("btor2", 1500, 50000, "ls")],
+        engines=[("aiger", 1500, 50000, "ls"), ("reader", 4000, 150000, ""), ("cnf", 2500, 80000, "ls"), ("btor2", 1500, 50000, "ls")],
         claim="Reader layer proved for all histories and schedules: exactly one non-Interrupted read per refill "
               "(one_read_per_refill), no read when buffered data satisfies the request (no_read_if_satisfied), no "
               "call after EOF/error (no_read_after_end, never_called_after_end), reads are demand driven "
@@ -180,7 +188,7 @@ PROPS = {
         assumptions=["the sink obeys the Write contract (accepts at most the slice length)"]),
     "C01": dict(
         module="Flussab.Props.C01", modules=["Flussab.Props.C01", "Flussab.Props.C01Btor2"],
-        engines=[("cnf", 4000, 200000, "mix"), ("btor2", 3000, 150000, "rt+layout+kinds+mutate+arbitrary+kw"), ("reader", 1500, 50000, "")],
+        engines=[("aiger", 3000, 150000, "rt+layout+mutate+arbitrary+utf8+huge"), ("cnf", 4000, 200000, "mix"), ("btor2", 3000, 150000, "rt+layout+kinds+mutate+arbitrary+kw"), ("reader", 1500, 50000, "")],
         audit_observables=True,
         bv_decide_theorems=["multi_scanners_buffer_independent", "btor2_lowercase_kernel", "btor2_lowercase_kernel_no_panic",
                             "btor2_lowercase_eq_spec", "btor2_lowercase_buffer_independent", "btor2_lowercase_eq_spec_const"],
@@ -194,7 +202,8 @@ PROPS = {
               "Interrupted, random, two-piece splits) and comparing with the one model answer.",
         note="Parser level: DIMACS family, solver log and BTOR2 (incl. btor2_lowercase_eq_spec: the SWAR keyword "
              "scanner, kernel regenerated from token.rs, equals the reference run for every buffered amount) are "
-             "modelled and tied; AIGER is added when its model lands. Trusted: Lean kernel "
+             "modelled and tied; AIGER ASCII/binary parsers (remaining_file_content's buf_len loop: readToEnd_spec) are "
+             "modelled and tied by the aiger engine. Trusted: Lean kernel "
              "(+ bv_decide axioms through C13), harness, audit that format code uses only the modelled reader API.",
         assumptions=["chunk >= 1", "position() not wrapped"]),
     "C10": dict(
@@ -210,7 +219,7 @@ PROPS = {
              "model side merely predicts the item count. Trusted: Lean kernel, harness, counting allocator.",
         assumptions=["chunk >= 1", "honest source"]),
     "C06": dict(
-        module="Flussab.Props.C06", engines=[("cnf", 4000, 150000, "layout+rt+mutate+arbitrary+log+logmut")],
+        module="Flussab.Props.C06", modules=["Flussab.Props.C06", "Flussab.Props.C06Aiger"], engines=[("aiger", 4000, 150000, "rt+layout+mutate+huge+corrupt"), ("cnf", 6000, 200000, "layout+rt+mutate+arbitrary+corrupt+corrupt+log+logmut")],
         bv_decide_theorems=[],
         claim="Numbers: every number token is produced by the decimal scanners, which return the exact decimal value "
               "of the digit run or None (C13) - restated at token level (unsigned_token_exact, signed_token_exact: a "
@@ -220,12 +229,15 @@ PROPS = {
               "with the parser-level proof files; until then they are carried by the engine: every accepted input is "
               "re-read by an independent whitespace tokenizer with arbitrary-precision numerals and the limits are "
               "recomputed from the header, for all 5 literal types and both ignore_header settings.",
-        note="Parser-level limit theorems for DIMACS are in progress (Hoare-style proof files); AIGER/BTOR2 parts "
-             "arrive with their models. Trusted: Lean kernel, harness, the independent reference lexer.",
+        note="AIGER limits are theorems (Props/C06Aiger.lean: aag/aig_header_sane, aiger_lit_within, *_latch_within, "
+             "aag_gate_within, aig_delta_le_code, aiger_section_exhausted/count, aag/aig_parse_sizes, "
+             "aiger_justice_sizes, aiger_symbol_index_within, aig_varint_exact). DIMACS limits: cnf_parsed_is_wf "
+             "(Props/C03Cnf.lean: whatever parseAll accepts satisfies WF = literals within limits, declared counts "
+             "met, groups within the group count). Trusted: Lean kernel, harness, the independent reference lexer.",
         assumptions=["64-bit usize/isize"]),
     "C03": dict(
-        module="Flussab.Props.C03Cnf", modules=["Flussab.Props.C03Cnf", "Flussab.Props.C03Btor2"],
-        engines=[("cnf", 3000, 120000, "rt+layout"), ("btor2", 3000, 120000, "rt+rtbad+layout+kinds+valid")],
+        module="Flussab.Props.C03Cnf", modules=["Flussab.Props.C03Aiger", "Flussab.Props.C03Cnf", "Flussab.Props.C03Btor2"],
+        engines=[("aiger", 3000, 120000, "rt+layout"), ("cnf", 3000, 120000, "rt+layout"), ("btor2", 3000, 120000, "rt+rtbad+layout+kinds+valid")],
         claim="Theorems over the parser and writer models: cnf_roundtrip (CNF/WCNF/GCNF, every literal type, both "
               "ignore_header settings: parse(write(h, cs)) = (h, cs, clean end) for every value in the explicit "
               "decidable domain WF), cnf_parsed_is_wf + cnf_parse_write_parse (whatever is accepted is in WF, hence "
@@ -233,14 +245,17 @@ PROPS = {
               "btor2_document_roundtrip, btor2_const_domain, keyword tables regenerated from the source. Tie: values "
               "built from the repo's own types and writers, parsed back and compared (x= expected value), and "
               "parse(write(parse(t))) = parse(t) on every accepted text.",
-        note="AIGER round-trip theorems arrive with the AIGER model (until then not covered by theorems). BTOR2 "
-             "converse (parsed_is_wf) is left as btor2_parsed_is_wf_full. Texts shorter than 2^64-1 bytes, "
+        note="AIGER: aig_varint_roundtrip (all n < 2^64, lengths 1-10), aig_varint_shape, aiger_header_fields are "
+             "proved; the whole-file AIGER round trips are stated (aag_roundtrip_full / aig_roundtrip_full, explicit "
+             "WFaig / WFord domains, instantiated by kernel evaluation on concrete circuits) but not yet proved in "
+             "general - carried by the aiger engine's rt family. BTOR2 converse (parsed_is_wf) is left as "
+             "btor2_parsed_is_wf_full. Texts shorter than 2^64-1 bytes, "
              "non-failing source. Trusted: Lean kernel, harness, tools/gen_tables.py.",
         trusted=["tools/gen_tables.py (keyword / name tables translator)"],
         assumptions=["document shorter than 2^64 - 1 bytes"]),
     "C04": dict(
         module="Flussab.Props.C04", modules=["Flussab.Props.C04", "Flussab.Props.C04Btor2"],
-        engines=[("cnf", 3000, 100000, "fault+logfault"), ("cnf", 25, 1500, "sweep"), ("btor2", 2000, 60000, "fault"), ("btor2", 15, 600, "sweep")],
+        engines=[("aiger", 2000, 60000, "fault"), ("aiger", 10, 400, "sweep"), ("cnf", 3000, 100000, "fault+logfault"), ("cnf", 25, 1500, "sweep"), ("btor2", 2000, 60000, "fault"), ("btor2", 15, 600, "sweep")],
         claim="Theorems for every byte string and every fault offset (the view delivers b then fails): "
               "cnf_fault_never_clean_end / log_fault_never_ok / btor2_fault_final (a failing source is never reported "
               "as completely parsed), cnf_fault_syntax_only_before_end / btor2_fault_syntax_before_end (a syntax error "
@@ -250,12 +265,13 @@ PROPS = {
               "random and at EVERY offset of generated documents, comparing the final error kind and the items with "
               "the fault-free run of the real parser.",
         note="The clause 'items before the error equal the fault-free run's items' is checked by the engines (fault "
-             "sweeps), not yet a theorem (needs a prefix-monotonicity simulation). AIGER arrives with its model. "
+             "sweeps), not yet a theorem (needs a prefix-monotonicity simulation). AIGER: aiger_fault_io / "
+             "aiger_eof_not_on_fault (in Props/C05Aiger.lean, namespace Flussab.C04) cover the text entry points. "
              "Trusted: Lean kernel, harness.",
         assumptions=["input shorter than 2^63 bytes"]),
     "C05": dict(
-        module="Flussab.Props.C05", modules=["Flussab.Props.C05", "Flussab.Props.C05Btor2"],
-        engines=[("cnf", 5000, 250000, "mutate+arbitrary+corrupt+logmut+layout"), ("btor2", 4000, 150000, "mutate+arbitrary+corrupt+kw")],
+        module="Flussab.Props.C05", modules=["Flussab.Props.C05Aiger", "Flussab.Props.C05", "Flussab.Props.C05Btor2"],
+        engines=[("aiger", 4000, 150000, "mutate+arbitrary+utf8+huge+corrupt"), ("cnf", 5000, 250000, "mutate+arbitrary+corrupt+logmut+layout"), ("btor2", 4000, 150000, "mutate+arbitrary+corrupt+kw")],
         release=True,
         claim="Every Rust panic site is an explicit value in the models (advance / slice beyond scanned data, column "
               "underflow, from_utf8().unwrap(), line_at_offset overflow, NonZeroU64::new(0).unwrap(), loop fuel). "
@@ -266,7 +282,10 @@ PROPS = {
               "parser_buffers_bounded (a clause's literal list is no longer than the bytes consumed for it). Tie: "
               "engines on mutated / arbitrary / corrupted inputs, all literal types, debug AND release builds, each "
               "call under catch_unwind; bounded memory measured by the counting allocator (peak <= 64*len + 1 MiB).",
-        note="Heap size, native stack depth and wall time are measured, not modelled. AIGER arrives with its model. "
+        note="Heap size, native stack depth and wall time are measured, not modelled. AIGER: aiger_new/next/symbol/"
+             "comment_no_panic, aag_parse_no_panic (whole ASCII parse(), all 5 literal types, failing sources) are "
+             "proved; the binary and-gate block (a consumed byte may be 0x0A, outside the no-newline line invariant) is "
+             "left as aig_gates_no_panic_full / aig_parse_no_panic_full and carried by the engine. "
              "Hypothesis: input shorter than 2^63 bytes (so line_at_offset cannot overflow). Trusted: Lean kernel, "
              "harness.",
         assumptions=["input shorter than 2^63 bytes"]),
@@ -286,7 +305,7 @@ PROPS = {
         assumptions=["document shorter than 2^64 - 1 bytes"]),
     "C08": dict(
         module="Flussab.Props.C08", modules=["Flussab.Props.C08", "Flussab.Props.C08Btor2"],
-        engines=[("cnf", 5000, 250000, "corrupt+mutate+arbitrary+logmut"), ("btor2", 4000, 150000, "corrupt+mutate+arbitrary")],
+        engines=[("aiger", 4000, 150000, "corrupt+mutate+arbitrary+utf8"), ("cnf", 5000, 250000, "corrupt+mutate+arbitrary+logmut"), ("btor2", 4000, 150000, "corrupt+mutate+arbitrary")],
         claim="Range, for every input and both source kinds: cnf_error_in_range, log_error_in_range, "
               "btor2_error_in_range - a reported (line, col) satisfies 1 <= line <= nlines+1 and 1 <= col <= "
               "lineLen(line)+1 (lines as the property counts them), from the invariant 'line = 1 + newlines before "
@@ -296,7 +315,9 @@ PROPS = {
               "token) is evaluated on the implementation: documents rendered with known token spans (plain and full "
               "layout), one token replaced (garbage, out-of-range, overflowing, wrap-class numeral), reported "
               "position must lie on the token, under every schedule.",
-        note="The catalogue clause is checked, not proved (C08's per-class theorems are its proved part). AIGER "
-             "arrives with its model. Trusted: Lean kernel, harness.",
+        note="The catalogue clause is checked, not proved (C08's per-class theorems are its proved part). AIGER: "
+             "aiger_error_in_range (Props/C05Aiger.lean, namespace Flussab.C08) for the text entry points; the binary "
+             "and-gate block is treated as the continuation of one line (engine oracle locates it independently). "
+             "Trusted: Lean kernel, harness.",
         assumptions=["input shorter than 2^63 bytes"]),
 }
